@@ -55,3 +55,43 @@ func smActions(kind string, actions map[string]func(*rapid.T), bogus func(string
 	}
 	return rapid.StateMachineActions(&smA{base})
 }
+
+// smDirect calls every entry of the map that StateMachineActions derives from a menu object and checks that
+// the entry named after method M runs the body of method M (and "" the invariant), on the T it is given.
+func smDirect(kind string) *Violation {
+	var ran []string
+	acts := map[string]func(*rapid.T){}
+	for _, n := range []string{"a0", "a1", "a2", "a3", ""} {
+		n := n
+		acts[n] = func(*rapid.T) { ran = append(ran, n) }
+	}
+	var viol *Violation
+	obs := RunCheck(CheckCfg{Name: "TestSMDirect", Seed: 1, Checks: 1, ShrinkNS: 0, NoFailFile: true}, func(t *rapid.T) {
+		m := smActions(kind, acts, func(name string) { ran = append(ran, "bogus:"+name) })
+		want := map[string]string{"A0": "a0", "A1": "a1", "A2": "a2", "A3": "a3", "": ""}
+		for name, body := range want {
+			f := m[name]
+			if f == nil {
+				viol = violf("C08:statemachineactions-wrong-method", "menu type %s: StateMachineActions has no entry %q", kind, name)
+				return
+			}
+			ran = nil
+			f(t)
+			if len(ran) != 1 || ran[0] != body {
+				viol = violf("C08:statemachineactions-wrong-method", "menu type %s: the entry %q of StateMachineActions ran %q instead of the body of method %q", kind, name, ran, name)
+				return
+			}
+		}
+		for name := range m {
+			if _, ok := want[name]; !ok {
+				viol = violf("C08:statemachineactions-wrong-method", "menu type %s: StateMachineActions has an entry %q that is not an action method", kind, name)
+				return
+			}
+		}
+	})
+	if viol == nil && (obs.Failed || obs.Escaped != nil) {
+		rep := ParseReport(obs)
+		viol = violf("C08:statemachineactions-wrong-method", "menu type %s: calling the entries of StateMachineActions failed: %s %s %v", kind, rep.Kind, rep.Msg, obs.Escaped)
+	}
+	return viol
+}
